@@ -153,6 +153,16 @@ func c09Events() []Ev {
 			}},
 		)
 	}
+	// a sender that is a delayed (not a continuous) vesting account: whatever the verdict, its account
+	// may not change kind
+	evs = append(evs,
+		Ev{Name: "split(Tdv-delayed,2->absent)", Build: func(v View) (sdk.Msg, string) {
+			return vtypes.NewMsgSplitVesting(harness.AddrS("Tdv"), harness.AddrS("Tabs"), coins(2)), "Tdv"
+		}},
+		Ev{Name: "move(Tdv-delayed->absent)", Build: func(v View) (sdk.Msg, string) {
+			return vtypes.NewMsgMoveAvailableVesting(harness.AddrS("Tdv"), harness.AddrS("Tabs")), "Tdv"
+		}},
+	)
 	return evs
 }
 
